@@ -987,6 +987,38 @@ pub fn c07(a: &Args) -> Ctx {
         }
         ctx.own.retain(|o| *o != "C04");
     }
+    // a map that is created with a given table size, closed before its first update and reopened: everything a later
+    // session knows about the table comes from the files of an empty map (table sizes from one bucket up)
+    if a.shard % 4 == 1 {
+        let keys: Vec<Vec<u8>> = (0..6u8).map(|i| vec![b'e', i, i.wrapping_mul(37)]).collect();
+        let sizes = [1u64, 2, 3, 4, 5, 7, 8, 9, 15, 16, 17, 63, 64, 65, 127, 128, 129, 1000, 65_536];
+        for (j, &x) in sizes.iter().enumerate() {
+            if j % 4 != (a.shard / 4) % 4 {
+                continue;
+            }
+            let cfg = default_bufs(Buckets::Size(x));
+            for (v, re) in [cfg, Cfg::random_reopen(&mut rng), default_bufs(Buckets::Size(x + 1))].into_iter().enumerate() {
+                let mut ops = vec![Op::Reopen(re), Op::Len, Op::Get(3), Op::Iter(0, usize::MAX)];
+                for k in 0..5 {
+                    ops.push(Op::Put(k, ValSpec { len: 10 + k as u32, seed: k as u32, kind: 0 }));
+                }
+                ops.extend([Op::Get(0), Op::Get(5), Op::Iter(2, usize::MAX), Op::Del(1), Op::Len, Op::Reopen(cfg), Op::Iter(3, usize::MAX), Op::Get(4), Op::Len]);
+                let h = History { kt: "bytes".into(), cfg, keys: keys.clone(), ops, origin: format!("c07 map created empty under BucketsSize({x}), reopened (variant {v}) before its first update") };
+                let dir = a.scratch.join(format!("h_empty{j}_{v}"));
+                let res = run_history_kt("bytes", &dir, &h, &mon, &mut ctx);
+                ctx.evaluations += 1;
+                ctx.count("empty_created_reopened", 1);
+                let _ = std::fs::remove_dir_all(&dir);
+                if let Some(stop) = res.stop {
+                    let v = matches!(stop, Stop::Violation(_));
+                    ctx.record_stop(stop, Some(&h));
+                    if v {
+                        return ctx;
+                    }
+                }
+            }
+        }
+    }
     for i in 0..n_hist {
         let kt = pick_kt(&mut rng, 70);
         let mut p = Profile::base(*rng.pick(&[300usize, 1500, 3000]), n_ops);
